@@ -152,6 +152,10 @@ RULE = ('real TaurexChemistry with 1-4 fill gases (random ratios 1e-6..2) and 0-
         '(in-memory tables) and optional deactive_molecules; quota of mixtures whose traces sum to exactly 1.0 in '
         'the bottom layer (dyadic abundances), just above 1 (1e-12..1e-3) and clearly above 1; a third of the free '
         'cases are re-initialised on the SAME chemistry object after 1-3 parameters were rewritten through the '
+        'fitting-parameter setters; quota: fill ratios typed as python ints, one then rewritten with a fraction through its '
+        'fitting parameter; quota: sampler history accepted -> proposal with traces above one (rejected) -> the object READ in '
+        'that state (judged against the model mixture of the last accepted parameters, non-negative, sum one, mu) -> accepted '
+        'again; the same with '
         'fitting-parameter setters; constructor variants (ratio as float, fill gas as str); session stream: 2-3 scratch '
         'directories of cross-section files, histories of 5-12 cache operations (set_opacity_path switches, files added / '
         'removed, in-memory tables registered, OpacityCache()[m] loads, clear_cache, find_list_of_molecules, force_active with '
